@@ -1,12 +1,360 @@
-//! C13 — not built yet (stub).
+//! C13 — coinbase maturity, lock heights and relative locks hold on every fork.
 
 use crate::engine::*;
-use serde_json::Value;
+use crate::props::c02::scan;
+use crate::world::gen::*;
+use crate::world::poolkit::*;
+use crate::world::*;
+use crate::{ensure, fail};
+use grin_pool::types::TxSource;
+use proptest::prelude::*;
+use serde_derive::{Deserialize, Serialize};
+use serde_json::{json, Value};
+use std::collections::BTreeSet;
 
-pub fn run(_ctx: &Ctx) -> HResult<()> {
-	Err(HarnessError("C13 check not built yet".into()))
+#[derive(Clone, Debug, Serialize, Deserialize)]
+pub enum Op {
+	Block(RawBlock),
+	Reopen,
 }
 
-pub fn replay(_ctx: &Ctx, _part: &str, _case: &Value) -> PResult {
+#[derive(Clone, Debug, Serialize, Deserialize)]
+pub struct Case {
+	pub ops: Vec<Op>,
+}
+
+/// transactions rich in time-locked elements
+fn locked_tx() -> impl Strategy<Value = RawTx> {
+	(raw_tx(), prop_oneof![2 => Just(0u8), 3 => Just(2u8), 2 => Just(4u8), 8 => 5u8..=10], prop_oneof![4 => Just(0u16), 2 => Just(9000u16), 2 => any::<u16>()]).prop_map(|(mut t, k, first_in)| {
+		t.kern = k;
+		// pick 0 = the most recently matured output (coinbase exactly at its threshold)
+		t.ins = vec![first_in];
+		t.chain_prev = false;
+		t
+	})
+}
+
+fn locked_block() -> impl Strategy<Value = RawBlock> {
+	(raw_block(0), prop::collection::vec(locked_tx(), 0..=2), prop_oneof![6 => Just(Neg::None), 3 => Just(Neg::Immature)], any::<u16>()).prop_map(|(mut b, txs, neg, np)| {
+		b.txs = txs;
+		b.neg = neg;
+		b.neg_pick = np;
+		b
+	})
+}
+
+pub fn case_strategy(max_segs: usize) -> impl Strategy<Value = Case> {
+	let seg = prop_oneof![
+		10 => locked_block().prop_map(|mut b| {
+			b.parent = 0;
+			vec![Op::Block(b)]
+		}),
+		5 => (1u8..=4, 0u8..=2, prop::collection::vec(locked_block(), 7)).prop_map(|(d, extra, mut bs)| {
+			let m = (d as usize + extra as usize).max(1);
+			bs.truncate(m);
+			for (i, b) in bs.iter_mut().enumerate() {
+				b.parent = if i == 0 { 100 + d } else { 1 };
+			}
+			bs.into_iter().map(Op::Block).collect::<Vec<_>>()
+		}),
+		1 => Just(vec![Op::Reopen]),
+	];
+	prop::collection::vec(seg, 3..=max_segs).prop_map(|segs| Case {
+		ops: segs.into_iter().flatten().take(26).collect(),
+	})
+}
+
+fn plain_block() -> RawBlock {
+	RawBlock {
+		parent: 0,
+		cb_key: 0,
+		txs: vec![],
+		dt: 60,
+		diff: 1,
+		neg: Neg::None,
+		neg_pick: 0,
+	}
+}
+
+pub fn run_case(ctx: &Ctx, case: &Case, counting: bool) -> PResult {
+	init_thread();
+	let ev = &ctx.ev;
+	let mut cb = ChainBox::open(&ctx.scratch_dir("c13")).map_err(|e| Fail::new("init-fresh", e))?;
+	let mut w = World::new(&cb.genesis, true);
+	let mut head = 0usize;
+	let mut tags_seen: BTreeSet<String> = BTreeSet::new();
+	// prefix up to height 8 so that the generated part starts where NRD kernels become legal
+	let mut ops: Vec<Op> = (0..8).map(|_| Op::Block(plain_block())).collect();
+	ops.extend(case.ops.iter().cloned());
+	for (i, op) in ops.iter().enumerate() {
+		match op {
+			Op::Reopen => cb.reopen().map_err(|e| Fail::new("reopen-failed", e))?,
+			Op::Block(raw) => {
+				let built = w.build(cb.c(), raw, head).map_err(|e| Fail::new("builder", format!("op {}: {}", i, e)))?;
+				let on_fork = built.parent != head;
+				let res = cb.c().process_block(built.block.clone(), opts(PowMode::Real));
+				let ctx_tag = if on_fork { "fork" } else { "main" };
+				match (&built.verdict, &res) {
+					(Ok(m), Ok(tip)) => {
+						let n = w.push(&built, m.clone());
+						let reorg = tip.is_some() && on_fork;
+						if tip.is_some() {
+							head = n;
+						}
+						for t in &built.tags {
+							let full = format!("{}@{}{}:accepted", t, ctx_tag, if reorg { "+reorg" } else { "" });
+							if counting {
+								ev.class(&full);
+							}
+							tags_seen.insert(full);
+						}
+					}
+					(Ok(_), Err(e)) => {
+						fail!(
+							format!("valid-block-rejected:{}", built.tags.first().cloned().unwrap_or_default()),
+							"op {}: block valid under the lock rules of its own branch (h={}, tags {:?}, on {}) rejected: {}",
+							i,
+							built.block.header.height,
+							built.tags,
+							ctx_tag,
+							err_name(e)
+						);
+					}
+					(Err(why), Ok(_)) => {
+						fail!(
+							format!("lock-rule-not-enforced:{:?}", std::mem::discriminant(why)),
+							"op {}: block violating {:?} accepted (h={}, tags {:?}, on {})",
+							i,
+							why,
+							built.block.header.height,
+							built.tags,
+							ctx_tag
+						);
+					}
+					(Err(why), Err(_)) => {
+						let kind = match why {
+							ModelReject::ImmatureCoinbase(_) => "immature",
+							ModelReject::LockHeight(_) => "lockheight",
+							ModelReject::Nrd(_) => "nrd",
+							_ => "other",
+						};
+						for t in &built.tags {
+							let full = format!("{}@{}:rejected:{}", t, ctx_tag, kind);
+							if counting {
+								ev.class(&full);
+							}
+							tags_seen.insert(full);
+						}
+					}
+				}
+			}
+		}
+		if i % 6 == 5 {
+			scan(&cb, &w, &format!("after op {}", i))?;
+		}
+	}
+	cb.c().validate(false).map_err(|e| Fail::new("validate-failed", format!("{:?}", e)))?;
+	if counting {
+		ev.eval();
+		for t in &tags_seen {
+			// boundary cases (T-1 or T) on a fork or across a reorg
+			if (t.contains(":T-1@") || t.contains(":T@") || t.contains("first-on-this-fork") || t.contains("absent-on-this-fork")) && (t.contains("@fork") || t.contains("+reorg")) {
+				ev.nontrivial(t);
+			}
+		}
+	}
 	Ok(())
+}
+
+// ------------------------------------------------------------------ pool side
+
+#[derive(Clone, Debug, Serialize, Deserialize)]
+pub struct PoolCase {
+	/// chain length beyond height 9
+	pub extra: u8,
+	/// height (offset from 9) of a block carrying the first NRD instance, relative height of it
+	pub nrd_at: u8,
+	pub nrd_rel: u8,
+	/// probes: (kind, a, b)
+	pub probes: Vec<(u8, u8, u8)>,
+	pub stem: bool,
+}
+
+fn pool_case() -> impl Strategy<Value = PoolCase> {
+	(0u8..6, 0u8..4, 1u8..=3, prop::collection::vec((0u8..3, 0u8..6, 0u8..4), 3..10), any::<bool>()).prop_map(|(extra, nrd_at, nrd_rel, probes, stem)| PoolCase {
+		extra,
+		nrd_at,
+		nrd_rel,
+		probes,
+		stem,
+	})
+}
+
+pub fn pool_case_run(ctx: &Ctx, c: &PoolCase, counting: bool) -> PResult {
+	init_thread();
+	let ev = &ctx.ev;
+	let cb = ChainBox::open(&ctx.scratch_dir("c13p")).map_err(|e| Fail::new("init-fresh", e))?;
+	let mut w = World::new(&cb.genesis, true);
+	let mut head = 0usize;
+	let total = 9 + c.extra as usize;
+	let nrd_h = 9 + (c.nrd_at as usize).min(c.extra as usize);
+	let mut nrd_height: Option<u64> = None;
+	for h in 1..=total {
+		let mut raw = plain_block();
+		if h == nrd_h {
+			raw.txs = vec![RawTx {
+				ins: vec![40000],
+				outs: vec![RawOut { kind: 0, amt: 0, key: 1 }],
+				fee: 3,
+				kern: 5 + (c.nrd_rel - 1), // tag 1, relative height nrd_rel
+				zero_offset: false,
+				chain_prev: false,
+			}];
+		}
+		let built = w.build(cb.c(), &raw, head).map_err(|e| Fail::new("builder", e))?;
+		let m = built.verdict.clone().map_err(|e| Fail::new("harness:model", format!("{:?}", e)))?;
+		cb.c().process_block(built.block.clone(), opts(PowMode::Real)).map_err(|e| Fail::new("valid-block-rejected", err_name(&e)))?;
+		if h == nrd_h && built.block.kernels().iter().any(|k| k.is_nrd()) {
+			nrd_height = Some(h as u64);
+		}
+		head = w.push(&built, m);
+	}
+	let model = w.nodes[head].model.clone();
+	let hh = model.height; // head height; candidate block height is hh+1
+	let header = cb.c().head_header().map_err(|e| Fail::new("head-err", format!("{:?}", e)))?;
+	let maturity = grin_core::global::coinbase_maturity();
+	for (pi, (kind, a, b)) in c.probes.iter().enumerate() {
+		let mut pool = new_pool(cb.arc(), 1, 50, 50, 10_000);
+		// a mature plain or coinbase input to pay with
+		let cbs: Vec<(OutRef, u64)> = model.utxo.iter().filter(|(_, e)| e.features.is_coinbase()).filter_map(|(k, e)| w.refs.get(k).map(|r| (*r, e.height))).collect();
+		let fee = 2_000_000u64;
+		let (spec, expect, label): (TxSpec, bool, String) = match kind {
+			0 => {
+				// spend the coinbase created at height hh - a
+				let target = hh.saturating_sub(*a as u64).max(1);
+				let Some((r, ch)) = cbs.iter().find(|(_, h)| *h == target).cloned() else { continue };
+				let ok = ch + maturity <= hh + 1;
+				(
+					TxSpec {
+						inputs: vec![r],
+						outputs: vec![OutRef {
+							amount: r.amount - fee,
+							key: 20 + *b as u32,
+							cb: false,
+						}],
+						kernels: vec![KernelSpec::plain(fee)],
+						zero_offset: false,
+					},
+					ok,
+					format!("coinbase:T{:+}", (hh + 1) as i64 - (ch + maturity) as i64),
+				)
+			}
+			1 => {
+				// height-locked kernel at hh + a - 1 .. with a mature coinbase
+				let Some((r, _)) = cbs.iter().find(|(_, h)| *h + maturity <= hh + 1).cloned() else { continue };
+				let lock = (hh + *a as u64).saturating_sub(1);
+				let ok = lock <= hh + 1;
+				(
+					TxSpec {
+						inputs: vec![r],
+						outputs: vec![OutRef {
+							amount: r.amount - fee,
+							key: 24 + *b as u32,
+							cb: false,
+						}],
+						kernels: vec![KernelSpec {
+							kind: KKind::HeightLocked,
+							fee,
+							shift: 0,
+							lock,
+							excess_tag: 0,
+						}],
+						zero_offset: false,
+					},
+					ok,
+					format!("lock:T{:+}", (hh + 1) as i64 - lock as i64),
+				)
+			}
+			_ => {
+				// NRD duplicate of the kernel mined at nrd_height (tag 1) with relative height 1 + b%3
+				let Some(ph) = nrd_height else { continue };
+				let Some((r, _)) = cbs.iter().find(|(_, h)| *h + maturity <= hh + 1).cloned() else { continue };
+				let rel = 1 + (*b as u64 % 3);
+				let ok = ph + rel <= hh + 1;
+				(
+					TxSpec {
+						inputs: vec![r],
+						outputs: vec![OutRef {
+							amount: r.amount - fee,
+							key: 28 + *a as u32,
+							cb: false,
+						}],
+						kernels: vec![KernelSpec {
+							kind: KKind::Nrd,
+							fee,
+							shift: 0,
+							lock: rel,
+							excess_tag: 1,
+						}],
+						zero_offset: false,
+					},
+					ok,
+					format!("nrd:T{:+}", (hh + 1) as i64 - (ph + rel) as i64),
+				)
+			}
+		};
+		let (tx, _) = assemble(&spec);
+		let res = pool.add_to_pool(TxSource::Broadcast, tx, c.stem, &header);
+		if counting {
+			ev.eval();
+			ev.class(&format!("pool:{}:{}", label, if expect { "admitted" } else { "refused" }));
+			if label.ends_with("T+0") || label.ends_with("T-1") || label.ends_with("T+1") {
+				ev.nontrivial(&("pool", label.clone(), c.stem, hh));
+			}
+		}
+		if expect {
+			ensure!(res.is_ok(), format!("pool-refused-valid:{}", label.split(':').next().unwrap()), "probe {}: pool refused a transaction whose locks are satisfied for block {} ({}): {:?}", pi, hh + 1, label, res.err());
+		} else {
+			ensure!(res.is_err(), format!("pool-admitted-locked:{}", label.split(':').next().unwrap()), "probe {}: pool admitted a transaction that cannot be mined in block {} ({})", pi, hh + 1, label);
+		}
+	}
+	Ok(())
+}
+
+pub fn run(ctx: &Ctx) -> HResult<()> {
+	init_global();
+	let ev = &ctx.ev;
+	ev.rule("chains past the NRD hard fork with blocks rich in coinbase spends at their maturity threshold (T-1 via immature spends, T, T+1), height-locked kernels (lock = height+1, height, height-1..) and NRD kernels sharing an excess (relative heights 1..3), placed on the main chain, on fork runs that win or lose (so the first instance / the coinbase may sit on the other side of the fork point or be rewound away) and across reopen; each block's verdict comes from the branch-local replay model; pool probes (fresh pool per probe, stem and fluff) at head heights around each threshold; non-trivial = boundary placement (T-1 or T, or first/absent on this fork) on a fork or in a block that caused a reorg, and pool probes within one block of a threshold; distinct by tag");
+	ev.assume("NRD rule modelled as: refused iff the latest NRD kernel with the same excess on the same branch sits at height > H - relative_height (two in one block always refused); NRD kernels are legal from header version 4 (height 9 on AutomatedTesting)");
+	if let Some((case, f)) = pbt_proc(ctx, "chain", ctx.n(96, 1600), 16) {
+		ctx.report("chain", &f.sig, case, &f.msg);
+	}
+	if let Some((case, f)) = pbt_proc(ctx, "pool", ctx.n(64, 1000), 16) {
+		ctx.report("pool", &f.sig, case, &f.msg);
+	}
+	let s = sample_one(ctx.derive_seed("sample", 0), &case_strategy(4));
+	ev.sample("chain", || serde_json::to_value(&s).unwrap());
+	let s = sample_one(ctx.derive_seed("sample", 1), &pool_case());
+	ev.sample("pool", || serde_json::to_value(&s).unwrap());
+	let _ = json!(0);
+	Ok(())
+}
+
+pub fn part(ctx: &Ctx, part: &str, seed: u64, cases: u32) -> Option<(Value, Fail)> {
+	init_global();
+	match part {
+		"chain" => run_part(ctx, seed, cases, &case_strategy(if ctx.quick() { 9 } else { 12 }), |c, counting| run_case(ctx, c, counting)),
+		"pool" => run_part(ctx, seed, cases, &pool_case(), |c, counting| pool_case_run(ctx, c, counting)),
+		_ => None,
+	}
+}
+
+pub fn replay(ctx: &Ctx, part: &str, case: &Value) -> PResult {
+	init_global();
+	let bad = |e: serde_json::Error| Fail::new("harness:replay-parse", e.to_string());
+	match part {
+		"chain" => run_case(ctx, &serde_json::from_value(case.clone()).map_err(bad)?, false),
+		"pool" => pool_case_run(ctx, &serde_json::from_value(case.clone()).map_err(bad)?, false),
+		_ => Ok(()),
+	}
 }
